@@ -46,7 +46,7 @@ def classify(d):
     if op in ('fx', 'fx_from_int', 'fx_from_float', 'fx_to_float'):
         iw = a[2] if op == 'fx' else a[1]
         if iw == 0 and obs == 'raise ValueError: negative shift count': return 'C12-23'
-    if op == 'reduce_exp' and isinstance(obs, str) and obs.startswith('raise NameError') and 'e_mask' in obs: return 'C12-REDUCE-EXP'
+    if op == 'reduce_exp' and isinstance(obs, str) and obs.startswith('raise NameError') and "'e_mask'" in obs: return 'C12-REDUCE-EXP'
     if op == 'fpnum_compare':
         xa, xb = ops.desc_x(a[0]), ops.desc_x(a[1])
         if isinstance(xa, list) and isinstance(xb, list) and xa[1] == 0 and xb[1] == 0 and xa[0] != xb[0] and exp == 0 \
@@ -113,8 +113,8 @@ def oracle_sweep(ctx, H, rng):
     for (s_, iw, fw, a, b) in gen.fx_cases(rng, q):
         for which in ('add', 'sub', 'mult'):
             sw.run('fx', (which, s_, iw, fw, a, b), (which, s_, iw, fw, a % 64, b % 64))
-    for (s_, iw, fw) in gen.fx_formats_small(q) + gen.FX_BIG:
-        hi = 1 << (iw - 1)
+    for (s_, iw, fw) in gen.fx_formats_small(q) + gen.FX_BIG + gen.FX_NO_INT_BITS:
+        hi = (1 << iw) >> 1
         vs = set(range(0, min(hi, 20) + 1)) | {hi - 1, hi, hi // 2, hi // 3}
         if s_: vs |= {-v for v in vs}
         for v in sorted(vs):
@@ -125,12 +125,16 @@ def oracle_sweep(ctx, H, rng):
         if w <= 53:
             for raw in sorted({0, 1, (1 << w) - 1, 1 << (w - 1), (1 << (w - 1)) - 1, rng.randrange(1 << w), rng.randrange(1 << w)}):
                 sw.run('fx_to_float', (s_, iw, fw, raw), (s_, iw, fw, raw))
-            for x in (0.0, -0.0, 0.5, 1.0, 0.75, -0.75, 1.2, -1.2, 0.0000002, -2.5, 19.018951416015625, (1 << iw) - 0.5, rng.uniform(-1, 1) * (1 << (iw - 1))):
+            for x in (0.0, -0.0, 0.5, 1.0, 0.75, -0.75, 1.2, -1.2, 0.0000002, -2.5, 19.018951416015625, (1 << iw) - 0.5, rng.uniform(-1, 1) * (1 << iw) / 2):
                 if x < 0 and s_ == 0: continue
                 sw.run('fx_from_float', (s_, iw, fw, float(x).hex()), (s_, iw, fw, float(x).hex()))
-    for (s_, iw, fw) in gen.FX_NO_INT_BITS:                    # finding #23
-        sw.run('fx', ('add', s_, iw, fw, 0, 0), ('add', s_, iw, fw))
-        sw.run('fx_from_int', (s_, iw, fw, 0), (s_, iw, fw))
+    for (s_, iw, fw) in gen.FX_NO_INT_BITS:                    # finding #23: formats without integer bits
+        w = s_ + iw + fw
+        vals = list(range(1 << w)) if w <= 4 else sorted({0, 1, (1 << w) - 1, 1 << (w - 1), (1 << (w - 1)) - 1, 3 << (w - 3), rng.randrange(1 << w), rng.randrange(1 << w)})
+        for a in vals:
+            for b in vals:
+                for which in ('add', 'sub', 'mult'):
+                    sw.run('fx', (which, s_, iw, fw, a, b), (which, s_, iw, fw, a % 64, b % 64))
     ctx.log('fixed point: %d evaluations so far' % sw.n)
     # bit patterns of the three formats
     for fmt in ('hp', 'sp', 'dp'):
@@ -185,7 +189,10 @@ def oracle_sweep(ctx, H, rng):
                 sw.run('fpnum_arith', (which, da, db), (which, json.dumps(da), json.dumps(db)))
             sw.run('fpnum_compare', (da, db), ('cmp', json.dumps(da), json.dumps(db)))
     ctx.log('arithmetic done: %d evaluations so far' % sw.n)
-    sw.run('reduce_exp', ((1.5).hex(), 8), ('reduce_exp',))
+    for x in (1.5, -1.5, 0.1, 3.0e38, 3.5e38, 1.0e39, 2.0 ** 127, 2.0 ** 128, 2.0 ** -126, 2.0 ** -127, 1.0e-40, -1.0e-45, 2.0 ** 15, 2.0 ** 16, 65504.0,
+              2.0 ** -14, 2.0 ** -15, 1.0e300, 1.0e-300, 5e-324, 1.7976931348623157e308):
+        for prec in (5, 8, 11):
+            sw.run('reduce_exp', (float(x).hex(), prec), ('reduce_exp', x, prec))
     return sw
 
 
@@ -225,17 +232,17 @@ def coq_tie(ctx, H, rng, probes):
         add('sext', 'chk_sext', '(%s, %d, %d, %s)' % (zlit(v), w, nw, zlit(H.signExtend(v, w, nw))), ('signExtend', v, w, nw))
     # fixed point
     fxs = [c for c in gen.fx_cases(rng, True)]
-    fxs = fxs[::max(1, len(fxs) // (400 * n_small))] + [(s_, iw, fw, 0, 0) for (s_, iw, fw) in gen.FX_NO_INT_BITS]
+    fxs = fxs[::max(1, len(fxs) // (400 * n_small))] + [(s_, iw, fw, a, b) for (s_, iw, fw) in gen.FX_NO_INT_BITS if s_ + iw + fw >= 1 for (a, b) in ((0, 0), (1, 1), ((1 << (s_ + iw + fw)) - 1, 1 << (s_ + iw + fw - 1)), (3, (1 << (s_ + iw + fw)) - 2))]
     for (s_, iw, fw, a, b) in fxs:
         def r(which):
             A = FX.fromRawValue(s_, iw, fw, a); B = FX.fromRawValue(s_, iw, fw, b)
             return getattr(A, which)(B).v
-        add('fx', 'chk_fx', '(%d, %d, %d, %s, %s, %s, %s, %s)' % (s_, iw, fw, zlit(a), zlit(b), zlit(exc(lambda: r('add'))), zlit(exc(lambda: r('sub'))), zlit(exc(lambda: r('mult')))),
+        add('fx', 'chk_fx %s' % blit(probes['fx_iw0']), '(%d, %d, %d, %s, %s, %s, %s, %s)' % (s_, iw, fw, zlit(a), zlit(b), zlit(exc(lambda: r('add'))), zlit(exc(lambda: r('sub'))), zlit(exc(lambda: r('mult')))),
             ('fx', s_, iw, fw, a, b))
-    for (s_, iw, fw) in [(1, 3, 4), (0, 3, 4), (1, 16, 16), (1, 1, 0), (0, 1, 2), (1, 0, 3)]:
+    for (s_, iw, fw) in [(1, 3, 4), (0, 3, 4), (1, 16, 16), (1, 1, 0), (0, 1, 2), (1, 0, 3), (0, 0, 4)]:
         for v in (0, 1, -1, 2, 4, 5, -4, -5, 1 << 15, (1 << 15) + 1):
-            add('fx_int', 'chk_fx_int', '(%d, %d, %d, %s, %s)' % (s_, iw, fw, zlit(v), zlit(exc(lambda: FX(s_, iw, fw, v).v))), ('fx_int', s_, iw, fw, v))
-        if iw == 0: continue
+            add('fx_int', 'chk_fx_int %s' % blit(probes['fx_iw0']), '(%d, %d, %d, %s, %s)' % (s_, iw, fw, zlit(v), zlit(exc(lambda: FX(s_, iw, fw, v).v))), ('fx_int', s_, iw, fw, v))
+        if iw == 0 and not probes['fx_iw0']: continue
         for x in (0.0, -0.0, 0.5, -0.5, 1.2, -1.2, 0.0000002, 2.5, -2.5, 3.999, 0.3e-3, 19.018951416015625, -7.9999, math.inf, math.nan):
             raw = exc(lambda: FX(s_, iw, fw, x).v)
             num = 0
@@ -285,7 +292,7 @@ def coq_tie(ctx, H, rng, probes):
     rng.shuffle(pairs)
     for (da, db) in pairs[:220 * n_small]:
         a, b = ops.mk_fpnum(H, da), ops.mk_fpnum(H, db)
-        add('arith', 'chk_arith', '(%s, %s, %s, %s, %s, %s)' % (fp_lit(ops.comps(a)), fp_lit(ops.comps(b)), fp_lit(ops.comps(a.add(b))), fp_lit(ops.comps(a.sub(b))),
+        add('arith', 'chk_arith %s %s' % (blit(probes['cmp_inf_fix']), blit(probes['cmp_zero_fix'])), '(%s, %s, %s, %s, %s, %s)' % (fp_lit(ops.comps(a)), fp_lit(ops.comps(b)), fp_lit(ops.comps(a.add(b))), fp_lit(ops.comps(a.sub(b))),
                                                             fp_lit(ops.comps(a.mul(b))), zlit(a.compare(b))), ('arith', da, db))
     for d in pool:
         for prec in (0, 1, 5, 10, 23, 52, 60):
@@ -294,6 +301,13 @@ def coq_tie(ctx, H, rng, probes):
             r1 = x.copy(); r1.reducePrecision(prec); r2 = x.copy(); r2.reducePrecisionWithRounding(prec)
             add('misc', 'chk_misc', '(%s, %d, %s, %s, %s, %s, %s)' % (fp_lit(ops.comps(x)), prec, fp_lit(ops.comps(r1)), fp_lit(ops.comps(r2)), fp_lit(ops.comps(x.neg())),
                                                                  fp_lit(ops.comps(x.abs())), fp_lit(ops.comps(x.div2(prec)))), ('misc', d, prec))
+    if probes['reduce_exp_ok']:
+        for d in pool:
+            for prec in (5, 8, 11):
+                x = ops.mk_fpnum(H, d)
+                if x.nan or x.infinity or x.p == 0: continue
+                y = x.copy(); y.reduceExponentPrecision(prec)
+                add('redexp', 'chk_redexp', '(%s, %d, %s)' % (fp_lit(ops.comps(x)), prec, fp_lit(ops.comps(y))), ('reduce_exp', d, prec))
     prelude = 'From V Require Import Proofs.C12.CaseLib.\nFrom V Require Import Base.Bits Spec.C12 Model.HelperInt Model.FPNum Model.FPHelper.\nOpen Scope Z_scope.\n'
     items, total = [], 0
     for name, (chk, lits, descs) in fam.items():
@@ -326,9 +340,17 @@ def prop_expected(H, name, desc):
 
 # ------------------------------------------------------------------ run / replay
 def probe(H):
-    """the two constants by which the hand models are parametrised, read off the implementation"""
+    """the constants / versions by which the hand models are parametrised, read off the implementation"""
     n = H.FPNum(1, 'hp')                       # smallest half subnormal: m = 1, p = 1024 -> e = sube - 10
-    return {'hp_sube': n.e + 10 if n.m == n.p else -16, 'sp_zero_sign': H.FloatingPointHelper.sp_to_ieee754(-0.0) != 0}
+    def ok(f):
+        try: f(); return True
+        except Exception: return False
+    return {'hp_sube': n.e + 10 if n.m == n.p else -16,
+            'sp_zero_sign': H.FloatingPointHelper.sp_to_ieee754(-0.0) != 0,
+            'cmp_inf_fix': H.FPNum(-math.inf).compare(H.FPNum(math.inf)) == -1,
+            'cmp_zero_fix': H.FPNum(-0.0).compare(H.FPNum(0.0)) == 0,
+            'fx_iw0': ok(lambda: H.FixedPoint(1, 0, 1, 0)),
+            'reduce_exp_ok': ok(lambda: H.FPNum(1.5).reduceExponentPrecision(8))}
 
 
 def run(ctx):
